@@ -7,6 +7,7 @@ from .. import paths
 from ..core import FUNC, call_attr, calls_in, const, dotted, is_const, kwarg, norm, text, walk_local
 
 EXPLANATION = [
+    'C15.walrus: no assignment expression in bumble.keys binds the result of a comparison (`(t := x is not None)`): optional fields read from the file keep their stored value.',
     'C15.zero-valid: the optional integer-valued fields of the stored key objects (address_type, ediv) are tested for presence with `is None` everywhere in keys / device / smp, never by truthiness or `x or default`: address type 0 (public) and EDIV 0 read back as stored.',
     'C15.update-precedence: JsonKeyStore.update merges the new fields into the stored entry (stored.update(new)), so later updates override earlier ones.',
     'C15.atomic-write: the only write-mode open in keys.py targets the ".tmp" sibling; os.replace(tmp, filename) comes after the '
@@ -249,7 +250,13 @@ def zero_valid_rule(ctx):
     zero_valid_attrs(ctx, 'C15.zero-valid', ['bumble.keys'], ['bumble.keys', 'bumble.device', 'bumble.smp'], int_like=('int', 'AddressType'))
 
 
+def walrus_rule(ctx):
+    from .. import generic_rules as g
+    g.walrus_compare(ctx, 'C15.walrus', ['bumble.keys'])
+
+
 RULES = [
+    ('C15.walrus', walrus_rule),
     ('C15.zero-valid', zero_valid_rule),
     ('C15.update-precedence', update_precedence),
     ('C15.atomic-write', atomic_write),
